@@ -119,6 +119,9 @@ var overlay = map[string]string{}
 
 func die(f string, a ...any) {
 	fmt.Fprintf(os.Stderr, "go2lean: "+f+"\n", a...)
+	if scratch != "" {
+		os.RemoveAll(scratch) // os.Exit skips deferred calls
+	}
 	os.Exit(1)
 }
 
